@@ -1,30 +1,55 @@
 ------------------------------- MODULE RdfIso -------------------------------
-(* RDF dataset isomorphism by brute force.                                     *)
+(* RDF dataset isomorphism by brute force, on QUADS.                           *)
 (*                                                                             *)
-(* Terms: blank nodes 1..NB, one IRI (10), one literal (11); predicates 20,21. *)
-(* A quad (default graph) is <<s, p, o>> with s a blank or the IRI and o a     *)
-(* blank, the IRI or the literal; it is identified by a code 0..Q-1.  A        *)
-(* dataset is a set of quad codes.                                             *)
+(* Terms (integer tokens): blank nodes 1..NB, one IRI (10), one literal (11),  *)
+(* predicates 20, 21, graph IRIs 30, 31, and 0 for "no graph label" (the       *)
+(* default graph).  A quad is <<s, p, o, g>> with                              *)
+(*    s a blank node or the IRI,                                               *)
+(*    p one of NPred predicates,                                               *)
+(*    o a blank node, the IRI or (WithLit) the literal,                        *)
+(*    g the default graph, one of NIriLabels graph IRIs or (BlankLabels) a     *)
+(*      blank node of the SAME pool 1..NB, so that a blank node can be         *)
+(*      subject / object of one statement and graph label of another.          *)
+(* A quad is identified by a code 0..Q-1; a dataset is a SET of quad codes     *)
+(* (RDF semantics: a statement list denotes the set of its statements).  The   *)
+(* same triple in two or three graphs is simply two or three codes that differ *)
+(* in the label digit only.                                                    *)
 (*                                                                             *)
 (*   Iso(D, E) == \E bijection of blank labels mapping D onto E                *)
 (*                                                                             *)
 (* Over the label pool 1..NB every bijection between the blank nodes of two    *)
 (* datasets extends to a permutation of the pool, so the isomorphism class of  *)
-(* D is its orbit under Perms.  Key(D) is the smallest member of the orbit in  *)
-(* a fixed order: two datasets are isomorphic iff their keys are equal.        *)
+(* D is its orbit under Perms.  Key(D) is the smallest member of the orbit     *)
+(* (sorted code sequences, lexicographic order): two datasets are isomorphic   *)
+(* iff their keys are equal.                                                   *)
 (*                                                                             *)
-(* The datasets are enumerated as a state graph (Init the empty dataset, Next *)
+(* The datasets are enumerated as a state graph (Init the empty dataset, Next  *)
 (* adds a quad with a larger code).                                            *)
 (* R1: Iso is an equivalence whose classes are the orbits (checked on every    *)
-(* enumerated dataset), orbit-stabiliser counting.  R2: every dataset with at  *)
-(* most MaxQ quads is printed with its key; the harness canonicalises each one *)
-(* with URDNA2015, URGNA2012 and IsoCanonicalHashes+C14n under several blank   *)
-(* label namings and statement orders and checks that "same canonical output"  *)
-(* is exactly "same key", and that Isomorphic(a, b) = (Key(a) = Key(b)).       *)
+(* enumerated dataset), orbit-stabiliser counting, the statement order used    *)
+(* for Deduplicate is a strict total order on distinct quads.                  *)
+(* R2: every dataset with at most MaxQ quads is printed with its key, and once *)
+(* per run the PLAN: every permutation of 1..n and every way of listing n      *)
+(* statements with one or two repetitions (surjections of 1..n+1, 1..n+2 onto  *)
+(* 1..n).  The harness                                                         *)
+(*  (i)/(ii) canonicalises each dataset with URDNA2015, URGNA2012 and          *)
+(*     IsoCanonicalHashes (+C14n) under several blank label namings and the    *)
+(*     statement orders of the plan and checks that "same canonical output"    *)
+(*     is exactly "same key" (URGNA2012, a GRAPH normalization algorithm that  *)
+(*     by its definition writes every blank graph name as "_:g" and does not   *)
+(*     follow the graph position, only where ~HasBlankGraphLabel);             *)
+(*  (iii) feeds every listing with repetitions to Deduplicate and expects the  *)
+(*     statements of the dataset, each once, in the order SortPos states       *)
+(*     ("sorted in lexical order": by subject, predicate, object, label);      *)
+(*  (iv) checks Isomorphic(a, b) = (Key(a) = Key(b)).                          *)
 EXTENDS Integers, Sequences, FiniteSets, TLC, Json
 
-CONSTANTS NB,        \* size of the blank label pool
-          MinQ, MaxQ,\* dataset sizes
+CONSTANTS NB,          \* size of the blank label pool
+          NPred,       \* 1 or 2 predicates
+          WithLit,     \* the literal is a possible object
+          NIriLabels,  \* 0, 1 or 2 named graphs with an IRI label
+          BlankLabels, \* the blank nodes are possible graph labels
+          MinQ, MaxQ,  \* dataset sizes
           Shard, NShards, \* of the datasets with at least ShardFrom quads only the classes of one shard are selected
           ShardFrom,
           Emit
@@ -33,29 +58,41 @@ VARIABLE val
 vars == <<val>>
 
 Blanks == 1 .. NB
+Default == 0
 IRI == 10
 Lit == 11
-SubjSeq == [i \in 1 .. NB |-> i] \o <<IRI>>
-ObjSeq == [i \in 1 .. NB |-> i] \o <<IRI, Lit>>
-PredSeq == <<20, 21>>
+BlankSeq == [i \in 1 .. NB |-> i]
+SubjSeq == BlankSeq \o <<IRI>>
+ObjSeq == BlankSeq \o <<IRI>> \o (IF WithLit THEN <<Lit>> ELSE <<>>)
+PredSeq == SubSeq(<<20, 21>>, 1, NPred)
+LabelSeq == <<Default>> \o SubSeq(<<30, 31>>, 1, NIriLabels) \o (IF BlankLabels THEN BlankSeq ELSE <<>>)
 NS == Len(SubjSeq)
 NO == Len(ObjSeq)
 NP == Len(PredSeq)
-Q == NS * NP * NO
-ASSUME Q <= 40                                     \* keys are two 20-bit masks
+NL == Len(LabelSeq)
+Q == NS * NP * NO * NL
+ASSUME NPred \in 1 .. 2 /\ NIriLabels \in 0 .. 2 /\ NB \in 1 .. 3 /\ Q <= 256
 
-QuadOf(c) == <<SubjSeq[(c \div (NP * NO)) + 1], PredSeq[((c \div NO) % NP) + 1], ObjSeq[(c % NO) + 1]>>
 Idx(seq, x) == CHOOSE i \in 1 .. Len(seq) : seq[i] = x
-CodeOf(q) == ((Idx(SubjSeq, q[1]) - 1) * NP + (Idx(PredSeq, q[2]) - 1)) * NO + (Idx(ObjSeq, q[3]) - 1)
+QuadOfDef(c) == <<SubjSeq[(c \div (NP * NO * NL)) + 1], PredSeq[((c \div (NO * NL)) % NP) + 1],
+                  ObjSeq[((c \div NL) % NO) + 1], LabelSeq[(c % NL) + 1]>>
+QuadTab == TLCEval([c \in 0 .. (Q - 1) |-> QuadOfDef(c)])
+QuadOf(c) == QuadTab[c]
+CodeOf(q) == (((Idx(SubjSeq, q[1]) - 1) * NP + (Idx(PredSeq, q[2]) - 1)) * NO + (Idx(ObjSeq, q[3]) - 1)) * NL
+             + (Idx(LabelSeq, q[4]) - 1)
 ASSUME \A c \in 0 .. (Q - 1) : CodeOf(QuadOf(c)) = c
 
 Perms == {f \in [Blanks -> Blanks] : \A a, b \in Blanks : f[a] = f[b] => a = b}
 MapTerm(f, t) == IF t \in Blanks THEN f[t] ELSE t
-MapQuad(f, q) == <<MapTerm(f, q[1]), q[2], MapTerm(f, q[3])>>
+\* a relabelling acts on subject, object AND graph label
+MapQuad(f, q) == <<MapTerm(f, q[1]), q[2], MapTerm(f, q[3]), MapTerm(f, q[4])>>
 \* the action of a permutation on quad codes, tabulated once
-PermCode == [f \in Perms |-> [c \in 0 .. (Q - 1) |-> CodeOf(MapQuad(f, QuadOf(c)))]]
+PermCode == TLCEval([f \in Perms |-> [c \in 0 .. (Q - 1) |-> CodeOf(MapQuad(f, QuadOf(c)))]])
 Apply(f, D) == {PermCode[f][c] : c \in D}
-BlanksOf(D) == UNION {{QuadOf(c)[1], QuadOf(c)[3]} \cap Blanks : c \in D}
+QuadBlanks(q) == {q[1], q[3], q[4]} \cap Blanks
+BlanksOf(D) == UNION {QuadBlanks(QuadOf(c)) : c \in D}
+\* some graph is named by a blank node
+HasBlankGraphLabel(D) == \E c \in D : QuadOf(c)[4] \in Blanks
 
 Orbit(D) == {Apply(f, D) : f \in Perms}
 Aut(D) == {f \in Perms : Apply(f, D) = D}
@@ -63,26 +100,39 @@ Aut(D) == {f \in Perms : Apply(f, D) = D}
 Bij(A, B) == {f \in [A -> B] : (\A a, b \in A : f[a] = f[b] => a = b) /\ {f[a] : a \in A} = B}
 MapTermP(f, t) == IF t \in DOMAIN f THEN f[t] ELSE t
 IsoDef(D, E) == \E f \in Bij(BlanksOf(D), BlanksOf(E)) :
-                   {CodeOf(<<MapTermP(f, QuadOf(c)[1]), QuadOf(c)[2], MapTermP(f, QuadOf(c)[3])>>) : c \in D} = E
+                   {CodeOf(<<MapTermP(f, QuadOf(c)[1]), QuadOf(c)[2], MapTermP(f, QuadOf(c)[3]), MapTermP(f, QuadOf(c)[4])>>) : c \in D} = E
 Iso(D, E) == E \in Orbit(D)
 
-RECURSIVE Sum(_, _)
-Sum(f, S) == IF S = {} THEN 0 ELSE LET c == CHOOSE x \in S : TRUE IN f[c] + Sum(f, S \ {c})
-PowHi == [c \in 0 .. 39 |-> IF c >= 20 THEN 2 ^ (c - 20) ELSE 0]
-PowLo == [c \in 0 .. 39 |-> IF c < 20 THEN 2 ^ c ELSE 0]
-Mask(D) == <<Sum(PowHi, D), Sum(PowLo, D)>>
-Leq(a, b) == a[1] < b[1] \/ (a[1] = b[1] /\ a[2] <= b[2])
-Rep(D) == CHOOSE E \in Orbit(D) : \A F \in Orbit(D) : Leq(Mask(E), Mask(F))
-Key(D) == Mask(Rep(D))
+\* a dataset as the increasing sequence of its codes
+RECURSIVE Sorted(_)
+Sorted(D) == IF D = {} THEN <<>> ELSE LET m == CHOOSE x \in D : \A y \in D : x <= y IN <<m>> \o Sorted(D \ {m})
+\* lexicographic order on sequences of equal length
+LexLeq(a, b) == a = b \/ \E i \in 1 .. Len(a) : a[i] < b[i] /\ \A j \in 1 .. (i - 1) : a[j] = b[j]
+Key(D) == LET O == {Sorted(E) : E \in Orbit(D)} IN CHOOSE s \in O : \A t \in O : LexLeq(s, t)
 
 RECURSIVE KSub(_, _)
 KSub(k, lo) == IF k = 0 THEN {{}} ELSE UNION {{({c} \cup T) : T \in KSub(k - 1, c + 1)} : c \in lo .. (Q - 1)}
-\* sharding by a label-invariant of the dataset (its quads with every blank node replaced by one token),
-\* so that a whole isomorphism class falls into one shard
-Skel(c) == LET q == QuadOf(c) IN
-           (IF q[1] \in Blanks THEN 0 ELSE 1) * 7 + (q[2] - 20) * 3 + (IF q[3] \in Blanks THEN 0 ELSE q[3] - 9) * 11
-SkelOf == [c \in 0 .. (Q - 1) |-> Skel(c)]
-InShard(D) == (Sum(SkelOf, D) % NShards) = Shard
+\* sharding by the class key, so that a whole isomorphism class falls into one shard
+KeyHash(k) == LET h[i \in 0 .. Len(k)] == IF i = 0 THEN 7 ELSE (h[i - 1] * 31 + k[i] * k[i] + 3 * k[i] + 1) % 65521 IN h[Len(k)]
+InShard(D) == (KeyHash(Key(D)) % NShards) = Shard
+
+(******************* statement order (for Deduplicate) **********************)
+\* "sorted in lexical order": statements are compared by subject, predicate, object, label as written in
+\* N-Quads.  The written form of a term is the harness's business (it binds blank label i to a string under
+\* a NAMING); the module only fixes the order the written forms have: no label < the literal ("lit") < IRIs
+\* (<http://example.org/a>, .../g1>, .../g2>, .../p>, .../q>) < blank labels (_:..), and among blank labels
+\* the order given per naming below.  The harness refuses to run if its strings do not have this order.
+NamingNames == {"b", "rev", "c14n", "prefix", "mixed"}
+\* BlankRank[nm][i] = place of the label of blank node i among the labels of the naming
+\*   b: b1 b2 b3   rev: z y x   c14n: c14n2 c14n0 c14n1   prefix: a aa aaa   mixed: n10 n9 N1
+BlankRank == [b |-> <<1, 2, 3>>, rev |-> <<3, 2, 1>>, c14n |-> <<3, 1, 2>>, prefix |-> <<1, 2, 3>>, mixed |-> <<2, 3, 1>>]
+TermTokens == {Default, Lit, IRI, 20, 21, 30, 31} \cup Blanks
+TermRank(nm, t) == CASE t = Default -> 0 [] t = Lit -> 1 [] t = IRI -> 2 [] t = 30 -> 3 [] t = 31 -> 4
+                     [] t = 20 -> 5 [] t = 21 -> 6 [] OTHER -> 10 + BlankRank[nm][t]
+QuadLess(nm, x, y) == \E i \in 1 .. 4 : TermRank(nm, x[i]) < TermRank(nm, y[i])
+                                        /\ \A j \in 1 .. (i - 1) : TermRank(nm, x[j]) = TermRank(nm, y[j])
+\* place (0-based) of each statement of the sequence qs in the sorted list
+SortPos(nm, qs) == [i \in 1 .. Len(qs) |-> Cardinality({j \in 1 .. Len(qs) : QuadLess(nm, qs[j], qs[i])})]
 
 \* the datasets are enumerated as a state graph: each one is reached exactly once, by adding its quads in
 \* increasing code order
@@ -91,6 +141,7 @@ Next == /\ Cardinality(val) < MaxQ
         /\ \E c \in 0 .. (Q - 1) : (\A x \in val : x < c) /\ val' = val \cup {c}
 Selected == Cardinality(val) >= MinQ /\ (Cardinality(val) < ShardFrom \/ InShard(val))
 Spec == Init /\ [][Next]_vars
+QuadSeq(D) == LET s == Sorted(D) IN [i \in 1 .. Len(s) |-> QuadOf(s[i])]
 
 (***************************** theorems (R1) ********************************)
 \* the orbit formulation agrees with the definition by bijections of the blank nodes actually present
@@ -104,10 +155,32 @@ Equivalence == Selected =>
 \* the shard selector is constant on isomorphism classes
 ShardInvariant == Selected => \A E \in Orbit(val) : InShard(E)
 OrbitStabiliser == Selected => Cardinality(Orbit(val)) * Cardinality(Aut(val)) = Cardinality(Perms)
+\* the statement order is a strict total order on the statements of a dataset (the sorted list is a
+\* permutation of the dataset), under every naming
+SortTotal == Selected => \A nm \in NamingNames :
+                LET p == SortPos(nm, QuadSeq(val)) IN {p[i] : i \in DOMAIN p} = 0 .. (Cardinality(val) - 1)
+\* the quad relation refines the triple relation: forgetting the graph labels maps isomorphic datasets to
+\* isomorphic triple sets (the converse fails - the label is part of the statement - which is why two
+\* datasets that differ only in one label have different keys: Key is injective on orbits by construction)
+Strip(D) == {c \div NL : c \in D}
+StripPerm == TLCEval([f \in Perms |-> [t \in 0 .. ((Q \div NL) - 1) |-> PermCode[f][t * NL] \div NL]])
+LabelsMatter == Selected => \A E \in Orbit(val) : \E f \in Perms : {StripPerm[f][t] : t \in Strip(val)} = Strip(E)
 
 (**************************** generator (R2) ********************************)
+PermSeqs(n) == {s \in [1 .. n -> 1 .. n] : {s[i] : i \in 1 .. n} = 1 .. n}
+Surj(len, n) == {s \in [1 .. len -> 1 .. n] : {s[i] : i \in 1 .. len} = 1 .. n}
+\* listings of n statements with repetitions: one repetition, and two (not for n = 4: 1 560 listings)
+DupSeqs(n) == Surj(n + 1, n) \cup (IF n <= 3 THEN Surj(n + 2, n) ELSE {})
+Plan == [k |-> "plan",
+         perms |-> [n \in 1 .. MaxQ |-> PermSeqs(n)],
+         dups |-> [n \in 1 .. MaxQ |-> DupSeqs(n)],
+         rank |-> [nm \in NamingNames |-> [t \in TermTokens |-> TermRank(nm, t)]]]
 EmitCase ==
-  (Emit /\ Selected) => PrintT(ToJson([k |-> "d", quads |-> {QuadOf(c) : c \in val}, key |-> Key(val),
+  Emit => IF val = {} THEN PrintT(ToJson(Plan))
+          ELSE Selected =>
+               LET qs == QuadSeq(val) IN
+               PrintT(ToJson([k |-> "d", quads |-> qs, key |-> Key(val),
                          aut |-> Cardinality(Aut(val)), nblank |-> Cardinality(BlanksOf(val)),
-                         orbit |-> Cardinality(Orbit(val))]))
+                         orbit |-> Cardinality(Orbit(val)), bgl |-> HasBlankGraphLabel(val),
+                         pos |-> [nm \in NamingNames |-> SortPos(nm, qs)]]))
 =============================================================================
